@@ -631,7 +631,21 @@ def probe_load(module, qualname, name):
 
 def probe_chain(module, base_modobj_key, path_names):
     lines = ['import importlib']
-    kind, modname = base_modobj_key
+    kind, modname = base_modobj_key[0], base_modobj_key[1]
+    if len(base_modobj_key) > 2:
+        # a package object reached from module base_modobj_key[2]: whether a submodule is an attribute of it depends on
+        # what has been imported, so the chain is evaluated in a fresh interpreter that imports only that module
+        import subprocess
+        import sys
+        ref = base_modobj_key[2]
+        lines.append(f'importlib.import_module({ref!r})')
+        lines.append(f'o = importlib.import_module({modname!r})')
+        lines += [f'o = getattr(o, {a!r})' for a in path_names[:1]]
+        env = dict(os.environ, PYTHONPATH=C.REPO)
+        r = subprocess.run([sys.executable, '-c', '\n'.join(lines)], capture_output=True, text=True, cwd=C.REPO, env=env)
+        if r.returncode != 0 and 'AttributeError' in r.stderr:
+            return lines, 'AttributeError: ' + r.stderr.strip().split('AttributeError:')[-1].strip()
+        return lines, None
     lines.append(f'o = importlib.import_module({modname!r})')
     try:
         o = importlib.import_module(modname)
